@@ -70,3 +70,12 @@ Theorem C06_record_stable_after_first_read :
               StateCodec.st_decode b = Some (StateCodec.canon_state s).
 Proof. exact StateIdem.record_stable_after_first_read. Qed.
 Print Assumptions C06_record_stable_after_first_read.
+
+(* the number a status is stored under is part of the on-disk format: records written by earlier builds (and by
+   schema version 2) carry these numbers, so the numbering is append-only.  GenStatus.v is regenerated from
+   statuses.go on every run; this pins the published numbering of every status that exists in stored records *)
+Theorem C06_stored_status_numbers_are_the_published_ones :
+  forallb (fun p => N.eqb (status_code (fst p)) (snd p))
+    [(Requested, 0%N); (Ongoing, 1%N); (TransferFinished, 2%N); (ResponderCompleted, 3%N); (Finalizing, 4%N); (Completing, 5%N); (Completed, 6%N); (Failing, 7%N); (Failed, 8%N); (Cancelling, 9%N); (Cancelled, 10%N); (InitiatorPaused, 11%N); (ResponderPaused, 12%N); (BothPaused, 13%N); (ResponderFinalizing, 14%N); (ResponderFinalizingTransferFinished, 15%N); (ChannelNotFoundError, 16%N); (Queued, 17%N); (AwaitingAcceptance, 18%N)] = true.
+Proof. vm_compute. reflexivity. Qed.
+Print Assumptions C06_stored_status_numbers_are_the_published_ones.
